@@ -43,7 +43,7 @@ func randPath(r *lib.Rng) string {
 }
 
 func fsOp(vfs avfs.VFS, r *lib.Rng, allow map[string]bool, hs *[]avfs.File, symlinks bool) {
-	ops := []string{"mkdir", "mkdirall", "writefile", "readfile", "remove", "removeall", "rename", "link", "stat", "lstat", "readdir", "chmod", "truncate", "open", "fileop", "chtimes", "symlink", "readlink", "chown"}
+	ops := []string{"mkdir", "mkdirall", "writefile", "readfile", "remove", "removeall", "rename", "link", "stat", "lstat", "readdir", "chmod", "truncate", "open", "fileop", "chtimes", "symlink", "readlink", "chown", "lchown"}
 	op := lib.Pick(r, ops)
 	if len(allow) > 0 && !allow[op] {
 		return
@@ -77,6 +77,8 @@ func fsOp(vfs avfs.VFS, r *lib.Rng, allow map[string]bool, hs *[]avfs.File, syml
 		_ = vfs.Chmod(p, 0o755)
 	case "chown":
 		_ = vfs.Chown(p, 0, 0)
+	case "lchown":
+		_ = vfs.Lchown(p, r.Intn(2)*1000, r.Intn(2)*1000)
 	case "chtimes":
 		_ = vfs.Chtimes(p, time.Now(), time.Now())
 	case "truncate":
